@@ -148,54 +148,62 @@ func runA(c Case) *h.Result {
 				c.LambdaList(), strings.Join(c.Args, " "), cl.src, o)
 			return res
 		}
-		if o.Kind == ev.Fault {
-			return fail("host fault")
-		}
-		switch {
-		case v.reject != "":
-			if o.Kind == ev.Value {
-				return fail("the call must be rejected (%s) but returned a value", v.reject)
-			}
-			if in {
-				return fail("the call must be rejected (%s) but the body ran", v.reject)
-			}
-		default:
-			if o.Kind != ev.Value {
-				if v.errOK {
-					continue
-				}
-				return fail("valid call signalled")
-			}
-			var got slip.List
-			switch tv := o.Val.(type) {
-			case nil:
-			case slip.List:
-				got = tv
-			default:
-				return fail("result is not a list")
-			}
-			if len(got) != len(ps) {
-				return fail("result has %d elements, %d parameters", len(got), len(ps))
-			}
-			for i, g := range got {
-				if v.accept[i] == nil {
-					continue
-				}
-				gt := sx.Text(g)
-				ok := false
-				for _, a := range v.accept[i] {
-					if a == gt {
-						ok = true
-						break
-					}
-				}
-				if !ok {
-					return fail("parameter %s is bound to %s, expected %s", ps[i], gt, strings.Join(v.accept[i], " or "))
-				}
-			}
+		if msg := judge(c, v, ps, o, in); msg != "" {
+			return fail("%s", msg)
 		}
 	}
 	return res
+}
+
+// judge compares the outcome of one call with the verdict of the reference binder; in tells whether the body ran.
+// It returns "" when the call behaved as the lambda list prescribes.
+func judge(c Case, v verdict, ps []string, o ev.Outcome, in bool) string {
+	if o.Kind == ev.Fault {
+		return "host fault"
+	}
+	if v.reject != "" {
+		if o.Kind == ev.Value {
+			return fmt.Sprintf("the call must be rejected (%s) but returned a value", v.reject)
+		}
+		if in {
+			return fmt.Sprintf("the call must be rejected (%s) but the body ran", v.reject)
+		}
+		return ""
+	}
+	if o.Kind != ev.Value {
+		if v.errOK {
+			return ""
+		}
+		return "valid call signalled"
+	}
+	var got slip.List
+	switch tv := o.Val.(type) {
+	case nil:
+	case slip.List:
+		got = tv
+	default:
+		return "result is not a list"
+	}
+	if len(got) != len(ps) {
+		return fmt.Sprintf("result has %d elements, %d parameters", len(got), len(ps))
+	}
+	for i, g := range got {
+		if v.accept[i] == nil {
+			continue
+		}
+		gt := sx.Text(g)
+		ok := false
+		for _, a := range v.accept[i] {
+			if a == gt {
+				ok = true
+				break
+			}
+		}
+		if !ok {
+			return fmt.Sprintf("parameter %s is bound to %s, expected %s", ps[i], gt, strings.Join(v.accept[i], " or "))
+		}
+	}
+	return ""
 }
 
 func btoi(b bool) int {
@@ -236,6 +244,18 @@ func genDefault(rt *rapid.T, earlier []string, label string) string {
 }
 
 func genCase(rt *rapid.T) (c Case) {
+	c = genShape(rt)
+	c.Args = genArgs(rt, c)
+	for _, p := range c.Params() {
+		if rapid.IntRange(0, 7).Draw(rt, "outer") == 0 {
+			c.Outer = append(c.Outer, p)
+		}
+	}
+	return
+}
+
+// genShape draws a lambda list.
+func genShape(rt *rapid.T) (c Case) {
 	names := rapid.Permutation(namePool).Draw(rt, "names")
 	next := 0
 	take := func() string {
@@ -274,7 +294,13 @@ func genCase(rt *rapid.T) (c Case) {
 		p.Def = genDefault(rt, earlier, "aux")
 		c.Aux = append(c.Aux, p)
 	}
-	// argument vector
+	return
+}
+
+// genArgs draws an argument vector of length 0-8 for the lambda list of c.
+func genArgs(rt *rapid.T, c Case) []string {
+	nreq, nopt, nkey := len(c.Req), len(c.Opt), len(c.Key)
+	c.Args = nil
 	val := 100
 	value := func() string {
 		val++
@@ -365,12 +391,7 @@ func genCase(rt *rapid.T) (c Case) {
 	if len(c.Args) > 8 {
 		c.Args = c.Args[:8]
 	}
-	for _, p := range c.Params() {
-		if rapid.IntRange(0, 7).Draw(rt, "outer") == 0 {
-			c.Outer = append(c.Outer, p)
-		}
-	}
-	return
+	return c.Args
 }
 
 func insert(as []string, at int, xs ...string) []string {
